@@ -247,7 +247,7 @@ def replay(rp):
 def plan(tier, seed):
     if tier == 'quick':
         return [{'ncases': 10, 'ncells': 6, 'reduce_budget': 30} for _ in range(32)]
-    return [{'ncases': 40, 'ncells': 32, 'reduce_budget': 60} for _ in range(64)]
+    return [{'ncases': 20, 'ncells': 32, 'reduce_budget': 60} for _ in range(64)]
 
 
 def run(tier, seed):
